@@ -863,17 +863,29 @@ def mesh_points(ctx, mesh, dim, n):
     return tuple(list(a) for a in axes), tuple(lens), idx
 
 
+_CFG = (("const", "unstructured", "scalar", 3), ("callable", "unstructured", "scalar", 2),
+        ("callable", "structured", "scalar", 2), ("const", "structured", "vector", 1),
+        ("vconst", "unstructured", "vector", 2), ("callable", "structured", "vector", 1),
+        ("callable", "unstructured", "vector", 1), ("none", "unstructured", "scalar", 1))
+# power-law normalizers (pairwise power facts; YeoJohnson forks on the sign of every value, twice):
+# small shapes only -- the shape logic is independent of the normalizer
+_CFG_YJ = (("const", "unstructured", "scalar", 1), ("callable", "unstructured", "scalar", 2),
+           ("callable", "unstructured", "vector", 1))
+_CFG_YJ1 = (("const", "unstructured", "scalar", 1), ("callable", "unstructured", "scalar", 1))
 PIPE = [{"norm": nk, "kind": k, "mesh": ms, "vtype": vt, "n": n}
         for nk in ("none", "LogNormal", "BoxCox", "YeoJohnson", "generic")
-        for (k, ms, vt, n) in (("const", "unstructured", "scalar", 3), ("callable", "unstructured", "scalar", 2),
-                               ("callable", "structured", "scalar", 2), ("const", "structured", "vector", 1),
-                               ("vconst", "unstructured", "vector", 2), ("callable", "structured", "vector", 1),
-                               ("callable", "unstructured", "vector", 1), ("none", "unstructured", "scalar", 1))]
+        for (k, ms, vt, n) in (_CFG_YJ1 if nk == "YeoJohnson" else _CFG_YJ if nk == "BoxCox" else _CFG)]
+
+
+def assumed(ctx):
+    """the assumptions made so far (symbolic runs), for `using=` clauses"""
+    return list(ctx.path.assume) if ctx.mode == "sym" else []
 
 
 def _pipeline_setup(ctx, norm, kind, mesh, vtype, n):
     dim = 2
     narg, dn, nm, in_dr = pipeline_normalizer(ctx, norm)
+    base = assumed(ctx)
     mean, mean_at = mean_trend(ctx, "mean", kind, dim, vtype)
     trend, trend_at = mean_trend(ctx, "trend", kind, dim, vtype)
     pos, shape, pts = mesh_points(ctx, mesh, dim, n)
@@ -884,50 +896,61 @@ def _pipeline_setup(ctx, norm, kind, mesh, vtype, n):
         v = ctx.real("f%d" % c)
         raw[flat] = v
         k, pidx = (flat[0], flat[1:]) if vtype == "vector" else (0, flat)
-        cells.append((flat, k, pts[tuple(pidx)], v))
+        cells.append({"idx": flat, "k": k, "pt": pts[tuple(pidx)], "v": v, "hyp": list(base)})
     if ctx.mode == "conc":
         raw = raw.astype(float)
     # valid range: the value handed to denormalize lies in the denormalize range
-    for flat, k, pt, v in cells:
-        ctx.require(in_dr(mean_at(pt, k) + v), "mean + field in the denormalize range")
+    for c in cells:
+        c["z"] = mean_at(c["pt"], c["k"]) + c["v"]
+        c["hyp"].append(ctx.require(in_dr(c["z"]), "mean + field in the denormalize range"))
     return dict(dim=dim, narg=narg, dn=dn, nm=nm, mean=mean, mean_at=mean_at, trend=trend, trend_at=trend_at,
                 pos=pos, raw=raw, cells=cells, fshape=fshape)
 
 
 def _pipe_hints(ctx, norm, S):
-    if norm == "generic":       # modular use of the round-trip contract at the evaluated points
-        for flat, k, pt, v in S["cells"]:
-            z = S["mean_at"](pt, k) + v
-            ctx.require(ctx.eq(ctx.m.fn("un", ctx.m.fn("udn", z)), z), "normalizer contract: normalize(denormalize(z)) = z")
-    if norm in ("BoxCox", "YeoJohnson"):
-        par = {"lmbda": S["narg"].lmbda}
-        for flat, k, pt, v in S["cells"]:
-            hints_backward(ctx, norm, par, S["mean_at"](pt, k) + v)
+    m = ctx.m
+    for c in S["cells"]:
+        z = c["z"]
+        if norm == "generic":       # modular use of the round-trip contract at the evaluated points
+            c["hyp"].append(ctx.require(ctx.eq(m.fn("un", m.fn("udn", z)), z),
+                                        "normalizer contract: normalize(denormalize(z)) = z"))
+        if norm in ("BoxCox", "YeoJohnson"):
+            n0 = len(assumed(ctx))
+            hints_backward(ctx, norm, {"lmbda": S["narg"].lmbda}, z)
+            c["hyp"].extend(assumed(ctx)[n0:])
 
 
 FN_PIPE = ["normalizer/tools.py:apply_mean_norm_trend", "normalizer/tools.py:remove_trend_norm_mean",
            "tools/misc.py:eval_func", "tools/misc.py:_func_from_single_val", "normalizer/tools.py:_check_normalizer"]
 
 
+def _using(ctx, c):
+    """hypotheses of one cell: parameter requires, its range require, its hints, the path"""
+    return (c["hyp"] + list(ctx.path.pc)) if ctx.mode == "sym" else None
+
+
 @contract(P, "tools.apply_mean_norm_trend/trend+denormalize(mean+field)", params=PIPE, functions=FN_PIPE,
           bounded="dim 2, 1-3 points per axis", timeout=40)
 def pipeline(ctx, norm, kind, mesh, vtype, n):
+    """scalar fields with the shape check of the functions, vector fields (shape (dim,) + mesh
+    shape) with check_shape=False, the way Field.post_field and the transform wrappers call them"""
     S = _pipeline_setup(ctx, norm, kind, mesh, vtype, n)
     _pipe_hints(ctx, norm, S)
-    raw0 = S["raw"].copy()
     out = _quiet(ntools.apply_mean_norm_trend, S["pos"], S["raw"], mean=S["mean"], normalizer=S["narg"],
-                 trend=S["trend"], mesh_type=mesh, value_type=vtype)
+                 trend=S["trend"], mesh_type=mesh, value_type=vtype, check_shape=(vtype == "scalar"))
     ctx.ensure("shape", ctx.shape_eq(out, S["fshape"]))
-    for flat, k, pt, v in S["cells"]:
-        want = S["trend_at"](pt, k) + S["dn"](S["mean_at"](pt, k) + v)
-        ctx.ensure("out=trend+denormalize(mean+field)",
-                   False if is_nan_leaf(out[flat]) else ctx.eq(out[flat], want))
+    for c in S["cells"]:
+        want = S["trend_at"](c["pt"], c["k"]) + S["dn"](c["z"])
+        got = out[c["idx"]]
+        ctx.ensure("out=trend+denormalize(mean+field)", False if is_nan_leaf(got) else ctx.eq(got, want),
+                   using=_using(ctx, c))
     back = _quiet(ntools.remove_trend_norm_mean, S["pos"], out, mean=S["mean"], normalizer=S["narg"],
-                  trend=S["trend"], mesh_type=mesh, value_type=vtype)
+                  trend=S["trend"], mesh_type=mesh, value_type=vtype, check_shape=(vtype == "scalar"))
     ctx.ensure("inverse:shape", ctx.shape_eq(back, S["fshape"]))
-    for flat, k, pt, v in S["cells"]:
+    for c in S["cells"]:
+        got = back[c["idx"]]
         ctx.ensure("remove_trend_norm_mean(apply_mean_norm_trend(f))=f",
-                   False if is_nan_leaf(back[flat]) else ctx.eq(back[flat], v))
+                   False if is_nan_leaf(got) else ctx.eq(got, c["v"]), using=_using(ctx, c))
 
 
 @contract(P, "tools.remove_trend_norm_mean/normalize(field-trend)-mean", params=PIPE, functions=FN_PIPE,
@@ -957,7 +980,7 @@ def pipeline_remove(ctx, norm, kind, mesh, vtype, n):
     if ctx.mode == "conc":
         vals = vals.astype(float)
     got = _quiet(ntools.remove_trend_norm_mean, pos, vals, mean=mean, normalizer=narg, trend=trend,
-                 mesh_type=mesh, value_type=vtype)
+                 mesh_type=mesh, value_type=vtype, check_shape=(vtype == "scalar"))
     ctx.ensure("shape", ctx.shape_eq(got, fshape))
     for flat, k, pt, v in cells:
         want = nm(v - trend_at(pt, k)) - mean_at(pt, k)
@@ -975,9 +998,11 @@ def post_field(ctx, norm, kind, mesh, vtype, n):
     ctx.ensure("field_shape", tuple(fld.field_shape) == tuple(S["fshape"]))
     out = _quiet(fld.post_field, S["raw"].ravel(), "result", True, True)
     ctx.ensure("shape", ctx.shape_eq(out, S["fshape"]))
-    for flat, k, pt, v in S["cells"]:
-        want = S["trend_at"](pt, k) + S["dn"](S["mean_at"](pt, k) + v)
-        ctx.ensure("post_field=trend+denormalize(mean+raw)", False if is_nan_leaf(out[flat]) else ctx.eq(out[flat], want))
+    for c in S["cells"]:
+        want = S["trend_at"](c["pt"], c["k"]) + S["dn"](c["z"])
+        got = out[c["idx"]]
+        ctx.ensure("post_field=trend+denormalize(mean+raw)", False if is_nan_leaf(got) else ctx.eq(got, want),
+                   using=_using(ctx, c))
     ctx.ensure("stored-under-name", "result" in fld.field_names and fld["result"] is out)
     plain = _quiet(fld.post_field, S["raw"].ravel(), "rawcopy", False, True)
     ctx.ensure("process=False:unchanged", ctx.eq(plain, S["raw"]))
@@ -1008,3 +1033,157 @@ def structured_equal_axes(ctx, n):
     ctx.ensure("out=trend+denormalize(mean+field)",
                ctx.And(*[ctx.eq(out[i, j], t + (a * xs[i] + b * ys[j] + c) + raw[i, j])
                          for i in range(n) for j in range(n)]) if ok else False)
+
+
+# ---------------------------------------------------------------------------------------
+# 6. NaN inputs (not representable in symbolic terms): native probes, reported as BOUNDED
+# ---------------------------------------------------------------------------------------
+PROBE_LMBDA = [-1.5, -0.5, 0.0, 1e-9, 0.5, 1.0, 2.0, 2.0 + 1e-6, 3.0]
+NAN = float("nan")
+
+
+def _probe_vectors(rng):
+    lo, hi = float(rng[0]), float(rng[1])
+    vs = []
+    if np.isfinite(lo):
+        vs.append([lo - 1.0, lo, lo + 0.5, NAN, lo + 2.0])
+        vs.append([NAN, lo - 1e-9, NAN])
+    if np.isfinite(hi):
+        vs.append([hi + 1.0, hi, hi - 0.5, NAN, hi - 2.0])
+    if not np.isfinite(lo) and not np.isfinite(hi):
+        vs.append([-2.0, NAN, 0.0, 1.5])
+    vs.append([NAN, NAN])
+    mid = lo + 1.0 if np.isfinite(lo) else (hi - 1.0 if np.isfinite(hi) else 0.3)
+    vs.append([[mid, NAN, mid], [NAN, mid, mid]])          # 2-d input keeps its shape
+    return vs
+
+
+def _probe_once(cls, par, method, data):
+    """-> None if the public method maps exactly the NaN / out-of-range entries to NaN and leaves
+    the rest equal to the private transform, else a description of the discrepancy"""
+    norm = getattr(gn, cls)(**par)
+    rng = norm.denormalize_range if method == "denormalize" else norm.normalize_range
+    priv = getattr(norm, "_" + method)
+    data = np.array(data, dtype=float)
+    with np.errstate(all="ignore"):
+        out = _quiet(getattr(norm, method), data)
+        if np.shape(out) != data.shape:
+            return "shape %s != %s" % (np.shape(out), data.shape)
+        for idx in np.ndindex(*data.shape):
+            v = data[idx]
+            bad = bool(np.isnan(v)) or not (float(rng[0]) < v < float(rng[1]))
+            if bad:
+                if not np.isnan(out[idx]):
+                    return "entry %r (outside %r or NaN) -> %r, expected NaN" % (v, tuple(map(float, rng)), out[idx])
+            else:
+                want = float(np.asarray(priv(np.array([v])))[0])
+                if not (out[idx] == want or (np.isnan(out[idx]) and np.isnan(want)) or
+                        abs(out[idx] - want) <= 1e-12 * max(1.0, abs(want))):
+                    return "valid entry %r -> %r, expected %r" % (v, out[idx], want)
+    return None
+
+
+def _probe_pipeline(cls, par):
+    norm = getattr(gn, cls)(**par)
+    lo, hi = (float(v) for v in norm.denormalize_range)
+    z = lo + 0.5 if np.isfinite(lo) else (hi - 0.5 if np.isfinite(hi) else 0.3)   # inside the declared range
+    with np.errstate(all="ignore"):
+        x = float(np.asarray(norm._denormalize(np.array([z])))[0])
+        field = np.array([z - 0.25, NAN, z - 0.25])
+        out = _quiet(ntools.apply_mean_norm_trend, [[0.0, 1.0, 2.0]], field, mean=0.25, normalizer=norm, trend=-1.0)
+        if not (np.isnan(out[1]) and abs(out[0] - (x - 1.0)) < 1e-9 and abs(out[2] - (x - 1.0)) < 1e-9):
+            return "apply_mean_norm_trend([z, NaN, z]) = %r, expected [%r, NaN, %r]" % (out, x - 1.0, x - 1.0)
+        back = _quiet(ntools.remove_trend_norm_mean, [[0.0, 1.0, 2.0]], out, mean=0.25, normalizer=norm, trend=-1.0)
+        if not (np.isnan(back[1]) and abs(back[0] - field[0]) < 1e-7 and abs(back[2] - field[2]) < 1e-7):
+            return "remove_trend_norm_mean(...) = %r, expected %r" % (back, field)
+    return None
+
+
+def probe_params(cls):
+    if cls == "LogNormal":
+        return [{}]
+    if cls == "BoxCoxShift":
+        return [{"lmbda": l, "shift": s} for l in PROBE_LMBDA for s in (0.0, 0.7)]
+    return [{"lmbda": l} for l in PROBE_LMBDA]
+
+
+def native_probes(rep, only=None):
+    """adds one BOUNDED obligation per (class, public method): NaN-in => NaN-out, out-of-range
+    (boundaries included) => NaN, everything else untouched, on a fixed grid of parameter values
+    and data vectors, executed on the real float code"""
+    from gsvc.core import Obligation, BOUNDED, FAILED
+    for cls in BRANCHES:
+        for method in ("normalize", "denormalize", "derivative", "pipeline"):
+            oid = "%s/native.Normalizer.%s/NaN-and-out-of-range->NaN,rest-untouched[cls=%s]" % (P, method, cls)
+            if only and only not in oid:
+                continue
+            n, fail = 0, None
+            for par in probe_params(cls):
+                if method == "pipeline":
+                    n += 1
+                    why = _probe_pipeline(cls, par)
+                    if why and fail is None:
+                        fail = {"cls": cls, "par": par, "method": method, "data": None, "why": why}
+                    continue
+                norm = getattr(gn, cls)(**par)
+                rng = norm.denormalize_range if method == "denormalize" else norm.normalize_range
+                for data in _probe_vectors(rng):
+                    n += 1
+                    why = _probe_once(cls, par, method, data)
+                    if why and fail is None:
+                        fail = {"cls": cls, "par": par, "method": method, "data": data, "why": why}
+            bound = "native NaN/out-of-range probes: %d (parameter value, data vector) cases" % n
+            fns = ["normalizer/base.py:Normalizer.%s" % (method if method != "pipeline" else "denormalize"),
+                   "normalizer/base.py:Normalizer._check_input"]
+            if fail is None:
+                rep.add(Obligation(oid, BOUNDED, "native", 0.0, "", None, bound, fns))
+            else:
+                rep.add(Obligation(oid, FAILED, "native", 0.0, fail["why"], {"inputs": fail, "how": "native probe"},
+                                   bound, fns, replay={"native_probe": fail}))
+
+
+# ---------------------------------------------------------------------------------------
+# replay (contract ids and ensure names may contain '/')
+# ---------------------------------------------------------------------------------------
+def replay_file(prop, path, native=None):
+    import json
+    from gsvc import contract as _c
+    data = json.load(open(path))
+    rp = data.get("replay") or {}
+    oid = data["obligation"]
+    if rp.get("native_probe") is not None and native is not None:
+        why = native(rp["native_probe"])
+        print("replay %s -> %s" % (oid, why or "holds"))
+        if why:
+            print("VIOLATION property=%s replay=%s" % (prop, path))
+            return 1
+        return 0
+    wit = rp.get("witness") or data.get("witness")
+    if not wit or "inputs" not in wit:
+        print("replay file carries no native witness (obligation %s): %s" % (oid, (data.get("solver_output") or "")[:300]))
+        return 0
+    for c in _c.REGISTRY:
+        if c.prop == prop and c.cid == rp.get("contract"):
+            p = c.params[rp["param"]]
+            name = oid[len("%s/%s/" % (prop, c.cid)):]
+            ps = _c._pstr(p)
+            name = name[:len(name) - len(ps)] if ps and name.endswith(ps) else name
+            try:
+                r = _c.run_concrete(c, p, wit["inputs"])
+            except Exception as e:
+                print("replay: real code raised %r" % (e,))
+                print("VIOLATION property=%s replay=%s" % (prop, path))
+                return 1
+            print("replay %s inputs=%s -> %s" % (oid, wit["inputs"], None if r is None else r.get(name)))
+            if r is not None and r.get(name) is False:
+                print("VIOLATION property=%s replay=%s" % (prop, path))
+                return 1
+            return 0
+    print("contract not found for", oid)
+    return 3
+
+
+def replay_native_probe(fail):
+    if fail["method"] == "pipeline":
+        return _probe_pipeline(fail["cls"], fail["par"])
+    return _probe_once(fail["cls"], fail["par"], fail["method"], fail["data"])
